@@ -567,6 +567,11 @@ Definition send_to_fx (t : token) (c receiver x target : Z) : M :=
    then the EVM call whose outcome evm_ok is known from the kind of `to`); on failure the deposited base coins are
    handed from the receiver to the refund address (bank SendCoins, skipped when they are the same account) and
    BridgeCallFailedRefund = AddOutgoingBridgeCall from the refund address. *)
+(* BridgeCallHandler: who is credited.  receiverAddr := msg.GetToAddr(); if msg.IsMemoSendCallTo() (memo = the marker
+   0x00..010000) receiverAddr = msg.GetSenderAddr(): the bridged tokens are deposited to the SENDER's account, converted to
+   ERC-20 for it, and `to` is called as the sender with the raw data.  Every other memo (empty or not): the receiver is `to`. *)
+Definition bridge_call_receiver (sender to : Z) (call_to : bool) : Z := if call_to then sender else to.
+
 Definition bridge_call_in (g : cfg) (c receiver refund : Z) (toks : list (Z * Z)) (evm_ok : bool) (timeout : Z) : M :=
   doB (each_tok g (fun t x => bridge_token_to_base t c receiver x) toks) ;;
   each_dep c toks ;;
@@ -628,7 +633,8 @@ Inductive op :=
 | OBatchExecuted (c h t n : Z)                               (* observed MsgSendToExternalClaim *)
 | OBridgeCallMsg (c sender refund : Z) (toks : list (Z * Z)) (timeout : Z)   (* MsgBridgeCall *)
 | OBridgeCallResult (c n : Z) (success : bool)               (* executed MsgBridgeCallResultClaim *)
-| OBridgeCallIn (c receiver refund : Z) (toks : list (Z * Z)) (evm_ok : bool) (timeout : Z)
+| OBridgeCallIn (c sender to refund : Z) (toks : list (Z * Z)) (call_to : bool) (evm_ok : bool) (timeout : Z)
+    (* executed MsgBridgeCallClaim; call_to = the memo is exactly the 32-byte MemoSendCallTo marker *)
 | OConvertCoin (t sender receiver x : Z)
 | OConvertERC20 (t sender receiver x : Z)
 | OConvertDenom (t sender receiver src target x : Z)
@@ -671,7 +677,7 @@ Definition run (g : cfg) (o : op) : M :=
       add_outgoing_bridge_call g c a r toks to ;;
       updR (fun r => set_frommsg ((c, get1 c (callid r)) :: frommsg r) r)
   | OBridgeCallResult c n ok => bridge_call_result g c n ok
-  | OBridgeCallIn c r rf toks ok to => bridge_call_in g c r rf toks ok to
+  | OBridgeCallIn c sd t rf toks cto ok to => bridge_call_in g c (bridge_call_receiver sd t cto) rf toks ok to
   | OConvertCoin t a b x => with_tok g t (fun tk => doB (convert_coin tk a b x))
   | OConvertERC20 t a b x => with_tok g t (fun tk => doB (convert_erc20 tk a b x))
   | OConvertDenom t a b src tg x => guard (0 <? x) ;; with_tok g t (fun tk => doB (msg_convert_denom tk a b src tg x))
